@@ -277,6 +277,22 @@ def cases(tier, seed):
 # --------------------------------------------------------------------------
 # the project
 
+def decoy_of(name):
+    """Another name that `name`, read as a glob pattern, would ALSO match ('v[2]' -> 'v2',
+    'n*s' -> 'nZs'); None if the name has no glob characters or only matches itself."""
+    import fnmatch
+    if not any(c in name for c in '*?['):
+        return None
+    d = re.sub(r'\[([^\]]+)\]', lambda m: m.group(1).lstrip('!^')[:1] or 'Z', name)
+    d = d.replace('*', 'Z').replace('?', 'Z')
+    if d == name or '/' in d or not d.strip() or d.startswith('-'):
+        return None
+    try:
+        return d if fnmatch.fnmatchcase(d, name) else None
+    except re.error:
+        return None
+
+
 def project_files(names, no_find=()):
     """One generated project exercising every role for each name.
     -> (files, expectations per name)"""
@@ -285,7 +301,14 @@ def project_files(names, no_find=()):
     exp = {}
     subs = []
     for k, n in enumerate(names):
-        e = {'produced': {}, 'touch': {}}
+        e = {'produced': {}, 'touch': {}, 'decoys': []}
+        # bystanders that the name, taken for a wildcard, would match too: a build tool that
+        # expands the written name picks them up instead of / besides the file that was meant
+        dn = decoy_of(n)
+        if dn and dn not in names:
+            for rel in ('%s.c' % dn, '%s.in' % dn, '%s/in%d.c' % (dn, k)):
+                files[rel] = 'this file is not part of the build\n'
+                e['decoys'].append(rel)
         # srcfile: source named N.c compiled into an executable
         files['%s.c' % n] = 'int main(void){return 0;}\n'
         L.append('e%d = executable(%r, files=[%r])' % (k, 'exe%d' % k, n + '.c'))
@@ -423,6 +446,19 @@ def run_project(backend, names, res, isolate=True):
         ran = outputs_of(recs, bld)
         bad_names = set()
         for n in names:
+            want = os.path.join(src, n + '.c')
+            for r in recs:
+                a = r['argv']
+                if '-c' in a and '-o' in a and \
+                   os.path.basename(a[a.index('-o') + 1]) == n + '.o' and \
+                   os.path.dirname(a[a.index('-o') + 1]).startswith('exe'):
+                    got = a[a.index('-c') + 1] if a.index('-c') + 1 < len(a) else None
+                    res.ev('srcfile:compile-input-checked')
+                    if got is not None and os.path.normpath(
+                            os.path.join(r['cwd'], got)) != os.path.normpath(want):
+                        fail('srcfile', 'compiled-from-another-file', n, compiled=got)
+                        bad_names.add(n)
+        for n in names:
             for role, produced in exp[n]['produced'].items():
                 res.ev('role:' + role)
                 res.key([backend, role, n], True)
@@ -467,6 +503,19 @@ def run_project(backend, names, res, isolate=True):
             fail(role, 'not-up-to-date-after-build', culprit, reran=again[:6], rc=rc,
                  output=out[-400:] if rc else '')
             return
+        # a file that is not part of the build changes: nothing happens
+        decoys = [d for n in names for d in exp[n].get('decoys', [])]
+        if decoys:
+            for d in decoys:
+                proj.bump(os.path.join(src, d), bld, src)
+            proj.clear_log(log)
+            rc, out = proj.build(bld, backend, [], env=env)
+            reran = outputs_of(proj.read_log(log), bld)
+            res.ev('decoy:touched')
+            if rc != 0 or reran:
+                fail('srcfile', 'unrelated-file-triggers-rebuild', names[0], reran=reran[:6],
+                     decoys=decoys, rc=rc)
+                return
         # touches: every role's prerequisite of a name at once, then the intermediate
         for n in names:
             musts = {}
